@@ -133,21 +133,27 @@ def dddmpInfo2permid (f : DddmpFile) (ids permids : List Int) : Except Err (List
     | none => .error .type              -- `None + 1`
     | some n => .ok (dictSet t (.str "T") (n + 1))
 
+/-- `permid2var[k]: k` for an item `k` of `sorted(self.permuted_var_ids)` -/
+def dddmpLevelItem (permid2var : List (Int × Tok)) (k : Int) : Except Err (Tok × Int) :=
+  match dictGet permid2var k with
+  | some var => .ok (var, k)
+  | none => .error .key
+
 /-- the `levels` table of `_parse_header` -/
 def dddmpLevels (f : DddmpFile) (permids : List Int) : Except Err (List (Tok × Int)) :=
   match f.orderedvarnames with
-  | some ov => pure (enumDict ov)
+  | some ov => .ok (enumDict ov)
   | none =>
     match f.suppvarnames with
-    | some sv => do
-      let permid2var := dictOf (permids.zip sv)
-      let l ← (sortInts permids).mapM fun k =>
-        match dictGet permid2var k with
-        | some var => pure (var, k)
-        | none => throw Err.key
-      pure (dictOf l)
+    | some sv =>
+      -- `permid2var = {k: var for k, var in zip(permids, support_vars)}`
+      -- `levels = {permid2var[k]: k for k in sorted(permids)}`
+      match (sortInts permids).mapM (dddmpLevelItem (dictOf (permids.zip sv))) with
+      | .error e => .error e
+      | .ok l => .ok (dictOf l)
     | none =>
-      pure (dictOf (permids.zipIdx.map fun p => (Tok.num p.1, (p.2 : Int))))
+      -- `levels = {idx: level for level, idx in enumerate(permids)}`
+      .ok (dictOf (permids.zipIdx.map fun p => (Tok.num p.1, (p.2 : Int))))
 
 /-- `Parser._parse_header` after the LALR parse: `(info2permid, levels, roots)` -/
 def dddmpHeader (f : DddmpFile) :
